@@ -345,7 +345,7 @@ def gen_run(seed: int, tier: str, sub: str) -> dict:
     elif shape == 'sweep':
         # context sweep: one or two functions that compute under the caller's context, the same
         # arguments, several contexts -- "the same function under another context" as history
-        cfg['starve'] = r.choice([0.0, 0.3, 0.7, 1.0])
+        cfg['starve'] = r.choice([0.0, 0.0, 0.3, 0.7])
         sns = 'lib' if rot % 4 == 3 else 'main'
         amb = [n for n in meta[sns].get('AMBIENT', []) if n in meta[sns]['SIG']]
         names = rotate(amb, rot, r.randint(1, 2))
